@@ -47,14 +47,27 @@ def _maybe_wrap(roots, wrap):
     return [{"k": "tag", "name": wrap[0], "ws": wrap[1], "attrs": [], "kids": roots}]
 
 
-def case_strategy(eols, blank, newlines=False):
+def _bulk(roots, n):
+    """a long child list (size-triggered paths): the first tag's children repeated until there are more than n of them"""
+    if not n:
+        return roots
+    for i, r in enumerate(roots):
+        if r["k"] == "tag" and r["kids"]:
+            kids = [k for k in r["kids"] if k["k"] != "tag" or not k["kids"]][:3] or [{"k": "text", "s": "x"}]
+            reps = n // len(kids) + 1
+            return roots[:i] + [dict(r, kids=kids * reps)] + roots[i + 1 :]
+    return roots
+
+
+def case_strategy(eols, blank, newlines=False, rawtext_ok=False):
     def f():
         return st.fixed_dictionaries(
             {
                 "roots": st.builds(
-                    _maybe_wrap,
-                    gen.layout_forest(newlines=newlines, meta=1, spaces=newlines, blank=blank).map(_no_rawtext),
+                    lambda forest, wrap, bulk: _bulk(_maybe_wrap(forest, wrap), bulk),
+                    gen.layout_forest(newlines=newlines, meta=1, spaces=newlines, blank=blank).map((lambda x: x) if rawtext_ok else _no_rawtext),
                     st.sampled_from([None, None, None, None, None, ("body", False), ("body", True), ("head", False), ("main", False)]),
+                    st.sampled_from([0] * 40 + [501, 1030]),
                 ).map(gen.number),
                 "doc": st.booleans(),
                 "indent": st.integers(0, 6),
@@ -69,6 +82,10 @@ def case_strategy(eols, blank, newlines=False):
 
 def _has_blank(n):
     return bool(n.get("blank")) or (n["k"] == "tag" and any(_has_blank(k) for k in n["kids"]))
+
+
+def _has_raw(nodes):
+    return any(n["k"] == "tag" and ((n["name"] in ("script", "style") and len(L.visible(n["kids"])) >= 2) or _has_raw(n["kids"])) for n in nodes)
 
 
 def marker(n) -> str:
@@ -115,6 +132,7 @@ def _id_counts(nodes, acc):
 def check_containment(out, roots, label):
     rs = all_runs(roots, [])
     occ = _id_counts(roots, {})
+    forest_flat = "".join(L.flat(n) if not L.contains_block(n) else _flat_any(n) for n in roots)
     for r in rs:
         # blank leaves (empty / whitespace-only content) carry no id: anchor the run at its first marked node
         k = next((i for i, n in enumerate(r) if not n.get("blank")), None)
@@ -124,7 +142,7 @@ def check_containment(out, roots, label):
         c = out.count(m)
         want_c = occ.get(r[k]["id"], 1)
         # nested occurrences: a shared node inside a shared subtree multiplies; compare with the flat count of the whole forest
-        total = "".join(L.flat(n) if not L.contains_block(n) else _flat_any(n) for n in roots).count(m)
+        total = forest_flat.count(m)
         check(c == total, f"{label}: marker {m!r} occurs {c} times, expected {total}", out)
         off = len("".join(L.flat(n) for n in r[:k]))
         exp = "".join(L.flat(n) for n in r)
@@ -198,7 +216,9 @@ def body_contain(case, note):
     any_block = any(L.contains_block(r) for r in roots)
     bii = any(has_block_in_inline(r) for r in roots)
     sole_inline_body = len(roots) == 1 and roots[0]["k"] == "tag" and roots[0]["name"] == "body" and not roots[0]["ws"]
-    note(any_block and any(len(r) >= 2 for r in rs), "saved-file" if saved else "", "in-document" if in_doc else "", "in-document:sole-inline-body" if in_doc and sole_inline_body else "", "block-inside-inline" if bii else "", "run>=3" if any(len(r) >= 3 for r in rs) else "", "blank-leaf" if any(_has_blank(r) for r in roots) else "", "same-object-twice" if shared and memo else "")
+    note(any_block and any(len(r) >= 2 for r in rs), "saved-file" if saved else "", "in-document" if in_doc else "", "in-document:sole-inline-body" if in_doc and sole_inline_body else "",
+         "more-than-500-children" if any(r["k"] == "tag" and len(r["kids"]) > 500 for r in roots) else "",
+         "raw-text-element-with-several-children" if _has_raw(roots) else "", "block-inside-inline" if bii else "", "run>=3" if any(len(r) >= 3 for r in rs) else "", "blank-leaf" if any(_has_blank(r) for r in roots) else "", "same-object-twice" if shared and memo else "")
 
 
 # ---------------------------------------------------------------- token rule
@@ -339,7 +359,7 @@ RULE = (
 )
 
 CLAUSES = [
-    Clause("contain", body_contain, strategy=case_strategy(EOLS_ANY, ("", " ", "\t", "\xa0", "  ", "\n", "\n ", "\r\n"), newlines=True), quick=800, thorough=12000, shards_quick=3, required=("block-inside-inline", "blank-leaf", "same-object-twice", "saved-file", "in-document", "in-document:sole-inline-body"), rule="see RULE"),
+    Clause("contain", body_contain, strategy=case_strategy(EOLS_ANY, ("", " ", "\t", "\xa0", "  ", "\n", "\n ", "\r\n"), newlines=True, rawtext_ok=True), quick=800, thorough=12000, shards_quick=3, required=("block-inside-inline", "blank-leaf", "same-object-twice", "saved-file", "in-document", "in-document:sole-inline-body", "more-than-500-children", "raw-text-element-with-several-children"), rule="see RULE"),
     Clause("tokens", body_tokens, strategy=case_strategy(EOLS_WS, ("",)), quick=800, thorough=12000, shards_quick=3, required=("block-inside-inline", "eol-empty", "blank-leaf"), rule="see RULE"),
     Clause("triples", body_triples, source="enum", enum=enum_triples, shards_quick=4, shards_thorough=8, rule="every case"),
 ]
